@@ -30,6 +30,7 @@ class Block:
         self.stores = {}     # location tuple -> accumulated delta
         self.overwrites = []  # (location, node)
         self.rmw = []         # (location, node): stores of the form out = (value read from out) + delta
+        self.guards = []      # (symbol E, node): `if(E == 0) continue / return;` skip guards met on the analysed path
         self.idxname = {}    # loop var did -> role name
         for p in fn["params"]:
             t = p["t"]
@@ -172,6 +173,21 @@ class Block:
             return
         if k == "CallExpr" and self.inline_call(s):
             return
+        if k == "IfStmt":
+            # a skip guard: `if(E == 0) continue / return;` - the path analysed is the one that is not skipped; whether the skipped pairs
+            # really contribute nothing is decided by the caller against the law (guards are recorded with the symbolic E)
+            c = [y for y in kids(s) if y.get("k") != "DeclStmt"]
+            c0 = strip(c[0])
+            th = c[1] if len(c) > 1 else None
+            body_ = [th] if th is not None and th.get("k") != "CompoundStmt" else (kids(th) if th is not None else [])
+            if len(c) == 2 and body_ and all(x.get("k") in ("ContinueStmt", "ReturnStmt", "NullStmt") and not kids(x) for x in body_) \
+                    and c0.get("k") == "BinaryOperator" and c0.get("op") == "==":
+                a, b = self.eval(kids(c0)[0]), self.eval(kids(c0)[1])
+                e = a if b == 0 else b if a == 0 else None
+                if e is not None and isinstance(e, sympy.Symbol):
+                    self.guards.append((e, s))
+                    return
+            raise DataDependent(s, "branch on `%s`" % self.facts.ntext(c0)[:80])
         raise AnalysisBroken("%s: statement form not supported by the algebra engine: %s" % (self.facts.loc(s), k))
 
     def inline_call(self, call):
